@@ -1,4 +1,11 @@
 import Gaftools.Spec.Sort
+/-!
+# Helper lemmas for C09 / C10 (`gaftools sort`)
+
+* `.gsi` fold: `mem_gsiRaw` (one entry per name with the offsets of its first / last position), `keys_gsiRaw`
+* `process_alignment`: `loop_char` / `loop_err` (loop invariant), `tailPart_eq_go`, `processAlignment_toOption`
+* small list facts used by `specFile_model`
+-/
 namespace Gaftools.Proofs.Sort
 open Gaftools.Sort Gaftools.Spec.Sort
 
@@ -353,5 +360,245 @@ theorem specGsi_gsiIndex (sns : List String) : specGsi sns (gsiIndex sns id) = t
     rw [List.length_map] at this
     rw [this, eraseDups_filter]
     simp
+
+
+/-! ## `process_alignment` -/
+
+/-- the part of `process_alignment` after the loop -/
+def tailPart (nodes : String → Option NodeTags) (steps : List Step) (plen ps pe : Int) (offset : Int)
+    (st : LoopSt) : Except Err Aln :=
+  let inv : Int := if countFwd st.orients != 0 && countRev st.orients != 0 then 1 else 0
+  let sn := st.sn.getD "unknown"
+  if countFwd st.orients < countRev st.orients then
+    match steps.getLast? with
+    | none => .error .emptyPath
+    | some s => match nodes s.2 with
+      | none => .error .keyError
+      | some t => .ok ⟨offset, t.bo, t.no, plen - pe, inv, sn⟩
+  else
+    match steps.head? with
+    | none => .error .emptyPath
+    | some s => match nodes s.2 with
+      | none => .error .keyError
+      | some t => .ok ⟨offset, t.bo, t.no, ps, inv, sn⟩
+
+theorem processAlignment_eq (nodes : String → Option NodeTags) (steps : List Step) (plen ps pe offset : Int) :
+    processAlignment nodes steps plen ps pe offset =
+      match loop nodes ⟨none, []⟩ steps with
+      | .error e => .error e
+      | .ok st => tailPart nodes steps plen ps pe offset st := rfl
+
+/-- are the reference names consistent with the `sn` seen so far and with each other -/
+def consistent : Option String → List String → Bool
+  | none, [] => true
+  | none, n :: rest => rest.all (· == n)
+  | some n, names => names.all (· == n)
+
+def finalSn : Option String → List String → Option String
+  | some n, _ => some n
+  | none, names => names.head?
+
+theorem refNames_cons (nodes : String → Option NodeTags) (s : Step) (rest : List Step) (t : NodeTags)
+    (h : nodes s.2 = some t) :
+    refNames nodes (s :: rest) = (if t.sr = 0 then [t.sn] else []) ++ refNames nodes rest := by
+  simp only [refNames, List.filterMap_cons, h]
+  split <;> simp_all
+
+theorem scaffold_cons (nodes : String → Option NodeTags) (s : Step) (rest : List Step) (t : NodeTags)
+    (h : nodes s.2 = some t) :
+    ((s :: rest).filter (isScaffold nodes)).map (·.1) =
+      (if t.bo ≠ -1 ∧ t.no ≠ -1 ∧ t.no = 0 then [s.1] else []) ++ (rest.filter (isScaffold nodes)).map (·.1) := by
+  simp only [List.filter_cons, isScaffold, h]
+  split <;> simp_all
+
+theorem loopStep_eq (nodes : String → Option NodeTags) (st : LoopSt) (s : Step) (t : NodeTags)
+    (h : nodes s.2 = some t) :
+    loopStep nodes st s =
+      if t.sr = 0 then
+        match st.sn with
+        | none => .ok ⟨some t.sn, st.orients ++ (if t.bo ≠ -1 ∧ t.no ≠ -1 ∧ t.no = 0 then [s.1] else [])⟩
+        | some n =>
+          if n = t.sn then .ok ⟨some n, st.orients ++ (if t.bo ≠ -1 ∧ t.no ≠ -1 ∧ t.no = 0 then [s.1] else [])⟩
+          else .error .assertion
+      else .ok ⟨st.sn, st.orients ++ (if t.bo ≠ -1 ∧ t.no ≠ -1 ∧ t.no = 0 then [s.1] else [])⟩ := by
+  obtain ⟨sn, o⟩ := st
+  simp only [loopStep, h]
+  cases sn with
+  | none =>
+    by_cases hsr : t.sr = 0 <;> by_cases hbo : t.bo = -1 <;> by_cases hno1 : t.no = -1 <;>
+      by_cases hno : t.no = 0 <;> simp [hsr, hbo, hno1, hno]
+  | some v =>
+    by_cases hv : v = t.sn <;>
+    by_cases hsr : t.sr = 0 <;> by_cases hbo : t.bo = -1 <;> by_cases hno1 : t.no = -1 <;>
+      by_cases hno : t.no = 0 <;> simp [hv, hsr, hbo, hno1, hno]
+
+theorem loop_char (nodes : String → Option NodeTags) (steps : List Step) (st : LoopSt)
+    (hall : ∀ s ∈ steps, ∃ t, nodes s.2 = some t) :
+    loop nodes st steps =
+      if consistent st.sn (refNames nodes steps) then
+        .ok ⟨finalSn st.sn (refNames nodes steps), st.orients ++ (steps.filter (isScaffold nodes)).map (·.1)⟩
+      else .error .assertion := by
+  induction steps generalizing st with
+  | nil =>
+    obtain ⟨sn, o⟩ := st
+    cases sn <;> simp [loop, refNames, consistent, finalSn]
+  | cons s rest ih =>
+    obtain ⟨t, ht⟩ := hall s (by simp)
+    have ih' := fun st => ih st (fun s hs => hall s (by simp [hs]))
+    rw [refNames_cons nodes s rest t ht, scaffold_cons nodes s rest t ht]
+    obtain ⟨sn, o⟩ := st
+    rw [loop, loopStep_eq nodes _ s t ht]
+    by_cases hsr : t.sr = 0
+    · simp only [hsr, if_true]
+      cases sn with
+      | none =>
+        simp only [ih', List.singleton_append, List.append_assoc]
+        rfl
+      | some n =>
+        by_cases hn : n = t.sn
+        · subst hn
+          simp only [if_true, ih', List.singleton_append, List.append_assoc]
+          simp [consistent, finalSn]
+        · have hn' : ¬ t.sn = n := fun h => hn h.symm
+          simp [hn, hn', consistent]
+    · simp only [hsr, if_false, ih', List.nil_append, List.append_assoc]
+
+theorem loop_err (nodes : String → Option NodeTags) (steps : List Step) (st : LoopSt)
+    (h : ∃ s ∈ steps, nodes s.2 = none) : ∃ e, loop nodes st steps = .error e := by
+  induction steps generalizing st with
+  | nil => obtain ⟨s, hs, -⟩ := h; cases hs
+  | cons s rest ih =>
+    rw [loop]
+    cases hs : loopStep nodes st s with
+    | error e => exact ⟨e, rfl⟩
+    | ok st' =>
+      simp only
+      apply ih
+      obtain ⟨s', hs', hn⟩ := h
+      rcases List.mem_cons.1 hs' with rfl | hs'
+      · simp [loopStep, hn] at hs
+      · exact ⟨s', hs', hn⟩
+
+theorem countFwd_map (sc : List Step) : countFwd (sc.map (·.1)) = (sc.filter (·.1)).length := by
+  unfold countFwd
+  rw [List.filter_map, List.length_map]
+  congr 2
+  funext s
+  obtain ⟨b, n⟩ := s
+  cases b <;> rfl
+
+theorem countRev_map (sc : List Step) : countRev (sc.map (·.1)) = (sc.filter (!·.1)).length := by
+  unfold countRev
+  rw [List.filter_map, List.length_map]
+  congr 2
+  funext s
+  obtain ⟨b, n⟩ := s
+  cases b <;> rfl
+
+theorem tailPart_eq_go (nodes : String → Option NodeTags) (steps : List Step) (plen ps pe offset : Int)
+    (hall : ∀ s ∈ steps, ∃ t, nodes s.2 = some t) (hne : steps ≠ []) (o : Option String) :
+    (tailPart nodes steps plen ps pe offset ⟨o, (steps.filter (isScaffold nodes)).map (·.1)⟩).toOption =
+      specAln.go nodes steps plen ps pe offset (o.getD "unknown") := by
+  obtain ⟨sl, hsl⟩ : ∃ s, steps.getLast? = some s := by
+    cases h : steps.getLast? with
+    | none => exact absurd (List.getLast?_eq_none_iff.1 h) hne
+    | some s => exact ⟨s, rfl⟩
+  obtain ⟨sh, hsh⟩ : ∃ s, steps.head? = some s := by
+    cases h : steps.head? with
+    | none => exact absurd (List.head?_eq_none_iff.1 h) hne
+    | some s => exact ⟨s, rfl⟩
+  obtain ⟨tl, htl⟩ := hall sl (List.mem_of_getLast? hsl)
+  obtain ⟨th, hth⟩ := hall sh (List.mem_of_head? hsh)
+  simp only [tailPart, specAln.go, countFwd_map, countRev_map, hsl, hsh]
+  generalize ((steps.filter (isScaffold nodes)).filter (·.1)).length = nf
+  generalize ((steps.filter (isScaffold nodes)).filter (!·.1)).length = nr
+  by_cases hlt : nf < nr
+  · simp [hlt, htl, Except.toOption, Nat.pos_iff_ne_zero]
+  · simp [hlt, hth, Except.toOption, Nat.pos_iff_ne_zero]
+
+theorem processAlignment_toOption (nodes : String → Option NodeTags) (steps : List Step) (plen ps pe off : Int) :
+    (processAlignment nodes steps plen ps pe off).toOption = specAln nodes steps plen ps pe off := by
+  rw [processAlignment_eq]
+  by_cases hall : ∀ s ∈ steps, ∃ t, nodes s.2 = some t
+  · have hallB : steps.all (fun s => (nodes s.2).isSome) = true := by
+      rw [List.all_eq_true]
+      intro s hs
+      obtain ⟨t, ht⟩ := hall s hs
+      simp [ht]
+    cases steps with
+    | nil => simp [loop, tailPart, specAln, countFwd, countRev, Except.toOption]
+    | cons s0 rest =>
+      rw [loop_char nodes _ _ hall]
+      unfold specAln
+      simp only [hallB, List.isEmpty_cons, Bool.not_false, Bool.and_true, if_true]
+      cases hn : refNames nodes (s0 :: rest) with
+      | nil =>
+        simp only [consistent, finalSn, if_true, List.nil_append, List.head?_nil]
+        exact tailPart_eq_go nodes _ plen ps pe off hall (by simp) none
+      | cons n r =>
+        simp only [consistent, finalSn]
+        by_cases hc : r.all (· == n) = true
+        · simp only [hc, if_true, List.head?_cons, List.nil_append]
+          exact tailPart_eq_go nodes _ plen ps pe off hall (by simp) (some n)
+        · simp [hc, Except.toOption]
+  · have hallB : steps.all (fun s => (nodes s.2).isSome) = false := by
+      cases hb : steps.all (fun s => (nodes s.2).isSome) with
+      | false => rfl
+      | true =>
+        exfalso
+        apply hall
+        intro s hs
+        have := List.all_eq_true.1 hb s hs
+        exact Option.isSome_iff_exists.1 this
+    have hex : ∃ s ∈ steps, nodes s.2 = none := by
+      false_or_by_contra
+      rename_i hcon
+      apply hall
+      intro s hs
+      cases hns : nodes s.2 with
+      | none => exact absurd ⟨s, hs, hns⟩ hcon
+      | some t => exact ⟨t, rfl⟩
+    obtain ⟨e, he⟩ := loop_err nodes steps ⟨none, []⟩ hex
+    rw [he]
+    simp [specAln, hallB, Except.toOption]
+
+
+/-! ## list facts for the file-level specification -/
+
+theorem pairwiseB_iff {α} (r : α → α → Bool) (l : List α) :
+    pairwiseB r l = true ↔ l.Pairwise (fun a b => r a b = true) := by
+  induction l with
+  | nil => simp [pairwiseB]
+  | cons a l ih => simp [pairwiseB, ih, List.all_eq_true]
+
+theorem filterMap_congr' {α β} {f g : α → Option β} {l : List α} (h : ∀ a ∈ l, f a = g a) :
+    l.filterMap f = l.filterMap g := by
+  induction l with
+  | nil => rfl
+  | cons a l ih =>
+    have h1 := h a (by simp)
+    have h2 := ih (fun a ha => h a (by simp [ha]))
+    simp only [List.filterMap_cons, h1, h2]
+
+theorem zip_suffix_all (l : List Aln) :
+    (List.zip l (l.map (fun a => (a.offset, suffix a)))).all (fun (a, (_, sfx)) => sfx == suffix a) = true := by
+  induction l with
+  | nil => rfl
+  | cons a l ih => simp [ih]
+
+theorem filter_cast_range (n i : Nat) (hi : i < n) :
+    (((List.range n).map (fun (j : Nat) => (j : Int))).filter (· == (i : Int))).length = 1 := by
+  rw [List.filter_map, List.length_map]
+  have : ((fun x : Int => x == (i : Int)) ∘ fun j : Nat => (j : Int)) = (fun j : Nat => j == i) := by
+    funext j
+    simp only [Function.comp]
+    rw [Bool.eq_iff_iff]
+    simp only [beq_iff_eq]
+    omega
+  rw [this, ← List.countP_eq_length_filter]
+  have := (List.nodup_range (n := n)).count (a := i)
+  simp only [List.mem_range, hi, if_true] at this
+  exact this
+
 
 end Gaftools.Proofs.Sort
